@@ -428,20 +428,25 @@ func (s *atpServerSession) sendInitialMessagesToClient() error {
 	// Start by serializing the schema, since the protocol requires sending the schema on the hello message.
 	serializedSchema, err := s.pluginSchema.SelfSerialize()
 	if err != nil {
+		vh("s.hs", "at", "selfser", "ok", false)
 		return err
 	}
 
 	// First, the start message, which is just an empty message.
 	var empty any
+	vh("s.hs.start.pre")
 	err = s.cborStdin.Decode(&empty)
 	if err != nil {
+		vh("s.hs", "at", "start", "ok", false)
 		return fmt.Errorf("failed to CBOR-decode start output message (%w)", err)
 	}
 
 	// Next, send the hello message, which includes the version and schema.
 	err = s.cborStdout.Encode(HelloMessage{ProtocolVersion, serializedSchema})
 	if err != nil {
+		vh("s.hs", "at", "hello", "ok", false)
 		return fmt.Errorf("failed to CBOR-encode schema (%w)", err)
 	}
+	vh("s.hs", "at", "hello", "ok", true)
 	return nil
 }
